@@ -42,6 +42,7 @@ def analyse_tree(cx, fn, rep):
     mcalls = []
     fn_generics = []   # (site, param, impl_has_user_generics)
     patidents = []
+    binder_holes = []
 
     for s in sites:
         if s.ast is None:
@@ -54,6 +55,7 @@ def analyse_tree(cx, fn, rep):
             elif role == 'patident':
                 name = node['name']
                 if is_marker(name):
+                    binder_holes.append((s, marker_name(name)))
                     return
                 if name[:1].isupper():
                     patidents.append((s, node))
@@ -108,6 +110,13 @@ def analyse_tree(cx, fn, rep):
             rep.bad('TPL-ABS', where, inst, '`%s` in value position is resolved against the user\'s own type first (a variant, inherent fn or const named `%s` wins over the trait item): write `<Self as ::core::..>::%s`' % (
                 p['s'], segs[1]['id'], segs[1]['id']), s.tmpl.file, s.tmpl.line, {'template': s.tmpl.text()[:300], 'kind': kind})
             continue
+        if first == 'Self' and len(segs) == 2 and not is_marker(segs[1]['id']) and kind == 'type' and cx.shape_of_handler(fn) != 'struct' \
+                and cx.shape_of_handler(fn) != 'union':
+            # `Self::Name` in type position inside an impl for an enum: a variant called `Name` makes the path ambiguous
+            # (deny-by-default lint ambiguous_associated_items)
+            rep.bad('TPL-ABS', where, inst, '`%s` in type position of an impl for an enum is ambiguous when the enum has a variant called `%s` (ambiguous_associated_items, denied by default): write `<Self as ::core::..>::%s`' % (
+                p['s'], segs[1]['id'], segs[1]['id']), s.tmpl.file, s.tmpl.line, {'template': s.tmpl.text()[:300], 'kind': kind})
+            continue
         if first in allowed:
             rep.ok('TPL-ABS', '%s|%s' % (where, inst), {'file': s.tmpl.file, 'line': s.tmpl.line, 'path': p['s'], 'why': 'template-local binder / Self / primitive'})
             continue
@@ -116,6 +125,49 @@ def analyse_tree(cx, fn, rep):
         rep.bad('TPL-ABS', where, inst,
                 'unqualified `%s` in generated code resolves at the derive site (shadowable; not available as written in every environment); write `::core::…`' % p['s'],
                 s.tmpl.file, s.tmpl.line, {'template': s.tmpl.text()[:300], 'kind': kind})
+    # GEN-INJ (binder vs template-fixed local): a binder supplied through a hole is named after the user's field.  Unprefixed, a
+    # field called like one of the template's own locals (`f`, `builder`, `state`, `other`, ..) shadows it; with a prefix the same
+    # holds for the field called <local minus prefix>.
+    from .binders import flatten, base_kind
+    fixed = sorted(b for b in binders if b != '_')
+    seen_b = set()
+    for s, h in binder_holes:
+        if cx.gm.hole_class(s.tmpl, h) == 'acc':
+            continue
+        t = s.tmpl.hole_term(h)
+        fl = flatten(t) if isinstance(t, tuple) and t and t[0] == 'format_ident' else ('', t)
+        key = (term_s(t)[:80])
+        if key in seen_b:
+            continue
+        seen_b.add(key)
+        inst = 'binder=#%s' % h
+        if fl is None:
+            continue        # non-injective format: reported by the format rule
+        pfx, base = fl
+        from .c01 import ident_like
+        if not (isinstance(t, tuple) and t and t[0] == 'format_ident') and not ident_like(t):
+            rep.bad('GEN-INJ', where, inst,
+                    'the pattern binder `#%s` is neither the field\'s own identifier nor built from it with format_ident! (%s): a raw identifier (`r#type`) keeps its `r#` under '
+                    'format!/to_string and `Ident::new("_s_r#type", ..)` panics, and the name cannot be shown to differ from the template\'s own locals' % (h, term_s(t)[:80]),
+                    s.tmpl.file, s.tmpl.line, {'template': s.tmpl.text()[:300]})
+            continue
+        kind_ = base_kind(base)
+        clash = None
+        for b in fixed:
+            if not b.startswith(pfx) or b == pfx:
+                continue
+            rest = b[len(pfx):]
+            if kind_ == 'index':
+                if rest.isdigit():
+                    clash = (b, rest)
+            elif (rest[0].isalpha() or rest[0] == '_') and all(ch.isalnum() or ch == '_' for ch in rest) and rest != '_':
+                clash = (b, rest)
+        if clash:
+            rep.bad('GEN-INJ', where, inst,
+                    'the pattern binder `#%s` is the user\'s field name%s: for a field called `%s` it is `%s`, which shadows the local of that name the generated function itself uses'
+                    % (h, (' prefixed with "%s"' % pfx) if pfx else ' as written', clash[1], clash[0]), s.tmpl.file, s.tmpl.line, {'template': s.tmpl.text()[:300]})
+        else:
+            rep.ok('GEN-INJ', '%s|%s "%s{}" vs %s' % (where, inst, pfx, ','.join(fixed) or '-'))
     for s, node in patidents:
         nm = node['name']
         if nm in allowed:
@@ -402,7 +454,52 @@ def run(cx, tier='quick'):
                         'shadowing of primitive type names (u8, bool, ...)']
     from .binders import check_binder_injectivity
     check_binder_injectivity(cx, rep, None)
+    check_method_capture(cx, rep)
     return rep
+
+
+def check_method_capture(cx, rep):
+    """METHOD-CAPTURE: a user-supplied function path (`method = path`) interpolated in call position (`#method(a, b)`) is resolved
+    inside the generated function, where the template's own parameters and locals (`f`, `state`, `other`, `source`, `builder`, ..)
+    are in scope: a user function that happens to have one of those names is shadowed by the local (E0434 / E0618 / E0308).
+    quote! identifiers carry call-site hygiene, so every fixed local name captures."""
+    from ..terms import subterms as _st
+    n = 0
+    for fn in cx.handler_fns():
+        sites, _bad = collect(cx, fn)
+        fixed = set()
+        calls = []
+        for s in sites:
+            if s.ast is None:
+                continue
+
+            def cb(role, node, extra, s=s):
+                if role == 'patident' and not is_marker(node['name']) and not node['name'][:1].isupper() and node['name'] != '_':
+                    fixed.add(node['name'])
+                elif role == 'call':
+                    f_ = node['func']
+                    if f_['k'] == 'Path' and len(f_['path']['segs']) == 1 and is_marker(f_['path']['segs'][0]['id']) and not f_['path']['global']:
+                        calls.append((s, marker_name(f_['path']['segs'][0]['id'])))
+            visit(s.ast, s.cat, cb)
+        seen = set()
+        for s, h in calls:
+            if seen:
+                continue      # one finding per handler: the key names the handler and the capturing locals, not educe's variable names
+            t = s.tmpl.hole_term(h)
+            user = any(isinstance(x, tuple) and ((x[0] == 'field' and x[2] == 'method') or x[0] == 'param') for x in _st(t))
+            if not user:
+                continue
+            seen.add(h)
+            n += 1
+            names = sorted(fixed)
+            if names:
+                rep.bad('METHOD-CAPTURE', fn.qname, 'user-method-called-under=%s' % ','.join(names),
+                        'the user\'s `method` path is called as `#%s(..)` inside a generated function whose own parameters / locals %s are in scope with call-site hygiene: '
+                        'a user function of one of these names is shadowed by the local and the generated code does not compile' % (h, names),
+                        s.tmpl.file, s.tmpl.line, {'template': s.tmpl.text()[:200]})
+            else:
+                rep.ok('METHOD-CAPTURE', '%s|call=#%s (no template-fixed local in scope)' % (fn.qname, h))
+    return n
 
 
 def selftest(rep):
